@@ -717,3 +717,172 @@ Proof.
   - rewrite Hp. pose proof (tuple_sig_of sc g l) as H. unfold l in H. rewrite tuple_fields_snd in H. apply H.
     subst l. apply fields_sig_ok. eapply Forall_impl; [|exact Hts]. cbn. tauto.
 Qed.
+
+(* ================= totality of the IDL parser ================= *)
+Lemma many_sep_goodS cb (p sep : iparser) L : goodS p L -> good sep L -> goodS (many_sep cb p sep) L.
+Proof.
+  intros Hp Hsep s Hs. rewrite many_sep_fst. rewrite sep_loop_S.
+  pose proof (Hp s Hs) as H. destruct (p s) as [[x s1| | |] k]; cbn [fst] in H |- *; try tauto.
+  pose proof (Hsep s1 ltac:(lia)) as H2. destruct (sep s1) as [[y s2| | |] k2]; cbn [fst] in H2 |- *; try tauto.
+  assert (Hlt : String.length s2 < String.length s) by lia. apply Nat.ltb_lt in Hlt. rewrite Hlt.
+  pose proof (sep_loop_good (String.length s) p sep L Hp Hsep s2 ltac:(lia) ltac:(apply Nat.ltb_lt in Hlt; lia)) as H3.
+  destruct (sep_loop (String.length s) p sep s2) as [[xs r| | |] k']; cbn [fst] in H3 |- *; try tauto.
+  apply Nat.ltb_lt in Hlt. lia.
+Qed.
+
+Lemma type_ident_goodS L : goodS type_ident L.
+Proof.
+  intros s _. unfold type_ident. pose proof (skip_ws_len s) as Hw.
+  destruct (skip_ws s) as [|c r]; cbn [fst]; [exact I|].
+  destruct (is_alpha_ c); cbn [fst]; [|exact I].
+  destruct (span is_alnum_ r) as [a b] eqn:E. apply span_spec in E as (E & _ & _). subst r.
+  cbn [String.length] in Hw. rewrite slen_app in Hw.
+  destruct b as [|x b]; cbn [fst]; [cbn; lia|].
+  destruct x as [[] [] [] [] [] [] [] []]; cbn [fst String.length] in *; try lia.
+  destruct (span is_alnum_ b) as [a2 b2] eqn:E2. apply span_spec in E2 as (E2 & _ & _). subst b.
+  rewrite slen_app in Hw.
+  destruct b2 as [|y b3]; cbn [fst String.length] in *; [rewrite ?slen_app; cbn [String.length]; lia|].
+  destruct y as [[] [] [] [] [] [] [] []]; cbn [fst String.length] in *; rewrite ?slen_app; cbn [String.length]; lia.
+Qed.
+
+Lemma int_tok_goodS L : goodS int_tok L.
+Proof.
+  intros s _. unfold int_tok. pose proof (skip_ws_len s) as Hw.
+  assert (Hgen : forall r, String.length r <= String.length s ->
+    match fst (let (a, b) := span is_digit r in
+               match a with EmptyString => (@Fail inode, 1%N) | _ => (Ok (NTerm a) b, 1%N) end) with
+    | Ok _ r' => String.length r' < String.length s | Fail => True | _ => False end).
+  { intros r Hr. destruct (span is_digit r) as [a b] eqn:E. apply span_spec in E as (-> & _ & _).
+    destruct a; cbn [fst]; [exact I|]. rewrite slen_app in Hr. cbn in Hr. lia. }
+  destruct (skip_ws s) as [|c r]; [apply (Hgen ""); cbn; lia|].
+  destruct c as [[] [] [] [] [] [] [] []]; try (apply (Hgen (String _ r)); exact Hw).
+  destruct (span is_digit r) as [a b] eqn:E. apply span_spec in E as (-> & _ & _).
+  destruct a; cbn [fst]; [exact I|]. cbn [String.length] in Hw. rewrite slen_app in Hw. cbn in Hw. lia.
+Qed.
+
+Lemma rest_of_line_good L : good rest_of_line L.
+Proof.
+  intros s _. unfold rest_of_line. pose proof (skip_ws_len s) as Hw.
+  destruct (span not_nl (skip_ws s)) as [a b] eqn:E. apply span_spec in E as (E & _ & _).
+  cbn [fst]. rewrite E, slen_app in Hw. lia.
+Qed.
+
+Lemma ibasic_goodS L : goodS ibasic_type L.
+Proof.
+  unfold ibasic_type. apply por_goodS. cbn [map idl_basic_names].
+  repeat constructor; apply atom_goodS; discriminate.
+Qed.
+
+Lemma itype_goodS f : forall L, L < f -> goodS (itype f) L.
+Proof.
+  induction f as [|f IH]; intros L HL; [lia|].
+  intros s Hs. rewrite itype_S. revert s Hs. fold (goodS (por (Some nodify_first)
+    [ibasic_type; imap_type (itype f); ituple_type (itype f); ivec_type (itype f); iref_type]) L).
+  assert (Hd : forall L', L' < L -> goodS (itype f) L') by (intros; apply IH; lia).
+  assert (HA : forall m L', m <> "" -> good (@atom ival m) L') by (intros; apply goodS_good, atom_goodS; assumption).
+  apply por_goodS. repeat constructor.
+  - apply ibasic_goodS.
+  - apply pand_goodS; [apply atom_goodS; discriminate|]. intros L' HL'.
+    repeat constructor; try (apply goodS_good, Hd; assumption); apply HA; discriminate.
+  - apply pand_goodS; [apply atom_goodS; discriminate|]. intros L' HL'.
+    repeat constructor; try (apply HA; discriminate).
+    apply goodS_good, many_sep_goodS; [now apply Hd|apply HA; discriminate].
+  - apply pand_goodS; [apply atom_goodS; discriminate|]. intros L' HL'.
+    repeat constructor; try (apply goodS_good, Hd; assumption); apply HA; discriminate.
+  - apply pand_goodS; [apply type_ident_goodS|]. intros L' HL'. constructor.
+Qed.
+
+Section Total.
+Variable ty : iparser.
+Variable L : nat.
+Hypothesis Hty : goodS ty L.
+
+Let HA : forall m L', m <> "" -> good (@atom ival m) L'.
+Proof. intros; apply goodS_good, atom_goodS; assumption. Qed.
+Let Hty' : forall L', L' < L -> good ty L'.
+Proof. intros L' HL'. apply goodS_good. eapply goodS_le; [exact Hty|lia]. Qed.
+Let HtyS : forall L', L' < L -> goodS ty L'.
+Proof. intros L' HL'. eapply goodS_le; [exact Hty|lia]. Qed.
+
+Lemma icomments_good L' : good icomments L'.
+Proof.
+  unfold icomments. apply pand_good. constructor; [|constructor]. apply maybe_good, goodS_good.
+  apply pand_goodS; [apply atom_goodS; discriminate|]. intros L'' _. constructor; [apply rest_of_line_good|constructor].
+Qed.
+
+Lemma iparameters_good L' : L' <= L -> good (iparameters ty) L'.
+Proof.
+  intro HL. unfold iparameters. apply pand_good. constructor; [|constructor]. apply maybe_good, goodS_good.
+  apply many_sep_goodS; [|apply HA; discriminate].
+  unfold iparameter. apply pand_goodS; [apply token1_goodS|]. intros L'' HL''.
+  constructor; [apply HA; discriminate|constructor; [apply Hty'; lia|constructor]].
+Qed.
+
+Lemma ireturns_good L' : L' <= L -> good (ireturns ty) L'.
+Proof.
+  intro HL. unfold ireturns. apply pand_good. constructor; [|constructor]. apply maybe_good, goodS_good.
+  apply pand_goodS; [apply atom_goodS; discriminate|]. intros L'' HL''. constructor; [apply Hty'; lia|constructor].
+Qed.
+
+Lemma iaction_goodS : goodS (iaction ty) L.
+Proof.
+  unfold iaction. apply por_goodS. repeat constructor.
+  - unfold imethod. apply pand_goodS; [apply atom_goodS; discriminate|]. intros L' HL'.
+    repeat constructor; try (apply HA; discriminate).
+    + apply goodS_good, token1_goodS.
+    + apply iparameters_good; lia.
+    + apply ireturns_good; lia.
+    + apply icomments_good.
+  - unfold isignal. apply pand_goodS; [apply atom_goodS; discriminate|]. intros L' HL'.
+    repeat constructor; try (apply HA; discriminate).
+    + apply goodS_good, token1_goodS.
+    + apply iparameters_good; lia.
+    + apply icomments_good.
+  - unfold iproperty. apply pand_goodS; [apply atom_goodS; discriminate|]. intros L' HL'.
+    repeat constructor; try (apply HA; discriminate).
+    + apply goodS_good, token1_goodS.
+    + apply iparameters_good; lia.
+    + apply icomments_good.
+Qed.
+
+Lemma ideclaration_goodS : goodS (ideclaration ty) L.
+Proof.
+  unfold ideclaration. apply por_goodS. repeat constructor.
+  - unfold istructure. apply pand_goodS; [apply atom_goodS; discriminate|]. intros L' HL'.
+    repeat constructor; try (apply HA; discriminate); try apply icomments_good.
+    + apply goodS_good, type_ident_goodS.
+    + apply kleene_good. unfold imember. apply pand_goodS; [apply token1_goodS|]. intros L'' HL''.
+      repeat constructor; [apply HA; discriminate|apply Hty'; lia|apply icomments_good].
+  - unfold ienum. apply pand_goodS; [apply atom_goodS; discriminate|]. intros L' HL'.
+    repeat constructor; try (apply HA; discriminate); try apply icomments_good.
+    + apply goodS_good, token1_goodS.
+    + apply kleene_good. unfold ienum_const. apply pand_goodS; [apply token1_goodS|]. intros L'' HL''.
+      repeat constructor; [apply HA; discriminate|apply goodS_good, int_tok_goodS|apply icomments_good].
+  - unfold iinterface. apply pand_goodS; [apply atom_goodS; discriminate|]. intros L' HL'.
+    repeat constructor; try (apply HA; discriminate); try apply icomments_good.
+    + apply goodS_good, token1_goodS.
+    + apply kleene_good. eapply goodS_le; [apply iaction_goodS|lia].
+Qed.
+
+Lemma ipackage_good : good (ipackage ty) L.
+Proof.
+  unfold ipackage. apply pand_good. constructor; [|constructor; [|constructor]].
+  - unfold ipackage_name. apply pand_good. constructor; [|constructor]. apply maybe_good, goodS_good.
+    apply pand_goodS; [apply atom_goodS; discriminate|]. intros L' HL'.
+    repeat constructor; [apply goodS_good, token1_goodS|apply icomments_good].
+  - apply kleene_good, ideclaration_goodS.
+Qed.
+End Total.
+
+(* ParseIDL's parser never reaches the model's bounds: arbitrary text yields meta-objects, an
+   error, or — only through a self-referential struct — the stack overflow *)
+Theorem parse_idl_total : forall s, parse_idl s <> IFuel /\ parse_idl s <> IHang.
+Proof.
+  intro s. unfold parse_idl, parse_package.
+  pose proof (ipackage_good (itype (S (String.length s))) (String.length s)
+                (itype_goodS (S (String.length s)) (String.length s) (Nat.lt_succ_diag_r _)) s (le_n _)) as H.
+  destruct (fst (ipackage (itype (S (String.length s))) s)) as [root rest| | |]; try tauto; try (split; discriminate).
+  destruct (is_empty (skip_ws rest)); [|split; discriminate].
+  destruct root as [|[]| | |]; try (split; discriminate).
+  destruct (metas_of _ _); split; discriminate.
+Qed.
